@@ -366,6 +366,36 @@ InsertMuts(b) ==
   \o [j \in DOMAIN Templates |-> Mu("insert-after:" \o Templates[j].name, "insert", << Sp(Len(b), 0, Templates[j].b) >>)]
 
 (***************************************************************************)
+(* Raw records (C34, C33): a record of any content type with a body of     *)
+(* 0..20 bytes, put on the wire where a protected record is expected: in   *)
+(* place of the Finished record that follows ChangeCipherSpec (TLS <= 1.2) *)
+(* and right after the completed handshake.  (halfConn.decrypt: explicit   *)
+(* nonce, MAC and padding arithmetic on bodies shorter than they need.)    *)
+(***************************************************************************)
+RecTypes == <<0, 20, 21, 22, 23, 24, 255>>
+RecLens  == 0..20
+RawRecord(t, n) == <<t, 3, 3>> \o U16(n) \o [i \in 1..n |-> (i * 7 + 3) % 256]
+\* recs: <<content type, length>> of the records one side wrote; the record after its ChangeCipherSpec (0-based), or -1
+RECURSIVE FirstCCS(_,_)
+FirstCCS(recs, i) == IF i > Len(recs) THEN 0 ELSE IF recs[i][1] = 20 THEN i ELSE FirstCCS(recs, i + 1)
+RecAfterCCS(recs) == LET i == FirstCCS(recs, 1) IN IF i = 0 \/ i = Len(recs) THEN 0 - 1 ELSE i
+
+(***************************************************************************)
+(* Post-handshake phase (C33).  After a completed TLS 1.3 handshake the    *)
+(* hostile server sends a sequence over PostKinds and never reads again;   *)
+(* the client's outgoing direction is ok / blocked until the deadline /    *)
+(* failing; then the application calls Read (until an error), Write and    *)
+(* Close.  Every call returns: by the connection deadline, except that     *)
+(* Close may take the library's own close_notify allowance (conn.go        *)
+(* closeNotify: 5 s write deadline).  conn.go handlePostHandshakeMessage,  *)
+(* handleKeyUpdate, sendAlert, closeNotify.                                *)
+(***************************************************************************)
+PostKinds  == <<"key_update_requested", "key_update_not_requested", "new_session_ticket", "application_data", "bad_mac_record", "close">>
+Transports == <<"ok", "blocked", "failing">>
+CloseNotifyMs == 5000
+CallLimitMs(call, deadline) == IF call.call = "Close" THEN Max(deadline, call.start_ms + CloseNotifyMs) ELSE deadline
+
+(***************************************************************************)
 (* Protocol position of the receiver.                                      *)
 (* ctx: [v13, psk] of the connection (read off the ServerHello).           *)
 (***************************************************************************)
